@@ -348,8 +348,20 @@ class Consumer(object):
             with :exc:`RestopError` if the consumer is not running.
         """
 
+        def _interrupted_by_stop():
+            """stop() was called while the shutdown was in progress
+
+            stop() does the stopping and there will be no commit, so the
+            shutdown has not succeeded.
+            """
+            self._shutdown_d, d = None, self._shutdown_d
+            self._shuttingdown = False
+            d.errback(CancelledError())
+
         def _handle_shutdown_commit_success(result):
             """Handle the result of the commit attempted by shutdown"""
+            if self._stopping or self._start_d is None:
+                return _interrupted_by_stop()
             self._shutdown_d, d = None, self._shutdown_d
             self.stop()
             self._shuttingdown = False  # Shutdown complete
@@ -357,8 +369,10 @@ class Consumer(object):
 
         def _handle_shutdown_commit_failure(failure):
             """Handle failure of commit() attempted by shutdown"""
+            if self._stopping or self._start_d is None:
+                return _interrupted_by_stop()
             if failure.check(OperationInProgress):
-                failure.value.deferred.addCallback(_commit_and_stop)
+                failure.value.deferred.addBoth(_commit_and_stop)
                 return
 
             self._shutdown_d, d = None, self._shutdown_d
@@ -368,6 +382,8 @@ class Consumer(object):
 
         def _commit_and_stop(result):
             """Commit the current offsets (if needed) and stop the consumer"""
+            if self._stopping or self._start_d is None:
+                return _interrupted_by_stop()
             if not self.consumer_group:  # No consumer group, no committing
                 return _handle_shutdown_commit_success(None)
 
